@@ -47,7 +47,7 @@ def cases(tier, seed, phase):
                 if pol == 'gen-pass' and any(w != 'ok' for w in ws):
                     continue
                 yield {'edge': edge, 'kind': 'queue', 'writes': ws, 'slow': None, 'policy': pol}
-        for ro in ['whole', 'reply', 'raise550', 'raise451', 'crash-reset', 'crash-value']:
+        for ro in ['whole', 'reply', 'raise550', 'raise451', 'raise535', 'crash-reset', 'crash-value']:      # (535: the WSGI edge answers 401)
             yield {'edge': edge, 'kind': 'proxy', 'relay': ro, 'n': 2}
         for n in (1, 2, 3):
             for shape in ('map', 'seq'):
